@@ -2,6 +2,7 @@ import Srtla.Lemmas.ForwardRun
 import Srtla.Lemmas.SendAll
 import Srtla.Lemmas.RunLevelGhost
 import Srtla.Lemmas.RunLevelGhostReload
+import Srtla.Lemmas.ProbeRateReload
 import Srtla.Lemmas.SysDir
 import Srtla.Lemmas.SysInvQual
 import Srtla.Props.C03
@@ -1189,5 +1190,73 @@ example :
   decide +kernel
 
 end reloadExamples
+
+/-! ## 13. Probe rate BY CONN ID, over runs WITH reloads (round 8)
+
+`C01_probe_rate` counts by link INDEX and keeps `NoReload`.  `Lemmas/ProbeRateReload.lean` reads the three quantities
+by CONN ID: `probeCopiesId s evs c` / `gatedRoutedId s evs c` sum, event by event, the index quantities of ONE event
+(`probeCopies s [ev] i`, `gatedRouted s [ev] i`) at the index `i` the link with conn id `c` has in the state the run
+had reached (`idxOfId`; nothing while no link carries `c`), and `probeCounterId s c` is that link's counter (0 while
+absent). -/
+
+section probeRateById
+open Srtla.Props.SysReload
+
+/-- **At most one duplicate per 100 routed data packets per gated uplink, by conn id, over ANY run** — reloads
+included; hypotheses `Inv` of the start state and `FreshRun` (as `Inv_run_reload`), no `NoReload`.  For every conn
+id `c`: `100 × (probe copies queued on the link with conn id c) + its final probe counter ≤ (data packets routed to
+another link while it was stall-gated and connected) + its initial probe counter`, each quantity read at the index
+the link has at that moment (0 while no link carries `c`).  A reload consults no counter and queues no copy; a
+retained link keeps its counter wherever its index moves; a created link starts at 0, so counted from its creation
+`100 × probes + counter ≤ routed-while-gated`; a removed link stops counting. -/
+theorem C01_probe_rate_by_id (s : Sys F) (hinv : Inv s) (evs : List Ev) (hf : FreshRun s evs) (c : Nat) :
+    100 * probeCopiesId s evs c + probeCounterId (run s evs).1 c ≤ gatedRoutedId s evs c + probeCounterId s c :=
+  run_probe_rate_id s hinv evs hf c
+
+/-- What the by-id quantities are, one event at a time (definitional unfolding, stated for the reader): at the head
+event the index quantities of that ONE event at the current index of `c`, `0` if no link carries `c`; on a run
+without reloads from a state where `c` sits at index `i` they are the index quantities of `C01_probe_rate`. -/
+theorem C01_probe_rate_by_id_reading (s : Sys F) (ev : Ev) (evs : List Ev) (c : Nat) :
+    probeCopiesId s (ev :: evs) c =
+      (match idxOfId s c with | some i => probeCopies s [ev] i | none => 0) + probeCopiesId (step s ev).1 evs c ∧
+    gatedRoutedId s (ev :: evs) c =
+      (match idxOfId s c with | some i => gatedRouted s [ev] i | none => 0) + gatedRoutedId (step s ev).1 evs c ∧
+    probeCounterId s c = (match idxOfId s c with | some i => probeCounterOf s i | none => 0) ∧
+    (∀ i, idxOfId s c = some i → ∃ l, s.links[i]? = some l ∧ l.core.connId = c) ∧
+    (idxOfId s c = none → c ∉ ids s.links) :=
+  ⟨rfl, rfl, rfl, fun _ h => by obtain ⟨l, h1, h2, -⟩ := idxOfId_some h; exact ⟨l, h1, h2⟩, idxOfId_none⟩
+
+end probeRateById
+
+section probeRateByIdExamples
+open Srtla.Props.SysReload
+
+/-- A fresh registering link `7@9` in FRONT of the two links of `exSysR` (`1@1`, and `3@2` with its probe counter at
+99). -/
+def exSysP : Sys Int :=
+  { exSys with links := [@FLink.newUplink Int fixScalar 7 9 0, { exLinkA with addr := 1 }, { exLinkB with addr := 2 }] }
+
+/-- The reload removes the link in front (address 9 no longer desired): links 1 and 3 slide from the indices 1, 2 to
+0, 1; address 4 is added (conn id 8).  Then one data packet: routed to link 1, link 3 is gated and its counter fires. -/
+def exEvsP : List Ev := [.reload 4990 [1, 2, 4] [some 8], .client 5000 exData]
+
+/-- The hypotheses hold, the run is NOT reload-free, conn id 3 moves from index 2 to index 1, and the bound is
+TIGHT across the reload: `100 · 1 + 0 ≤ 1 + 99` for conn id 3 — its counter 99 survived the reload at another index;
+the created link 8 starts at 0; the removed link 7 counts nothing. -/
+example :
+    @Inv Int exSysP ∧ @FreshRun Int fixScalar exSysP exEvsP ∧ ¬ NoReload exEvsP ∧
+    @idxOfId Int exSysP 3 = some 2 ∧ @idxOfId Int (@run Int fixScalar exSysP (exEvsP.take 1)).1 3 = some 1 ∧
+    (ids (@run Int fixScalar exSysP exEvsP).1.links) = [1, 3, 8] ∧
+    @probeCopiesId Int fixScalar exSysP exEvsP 3 = 1 ∧ @gatedRoutedId Int fixScalar exSysP exEvsP 3 = 1 ∧
+    @probeCounterId Int exSysP 3 = 99 ∧ @probeCounterId Int (@run Int fixScalar exSysP exEvsP).1 3 = 0 ∧
+    @probeCopiesId Int fixScalar exSysP exEvsP 8 = 0 ∧ @probeCounterId Int (@run Int fixScalar exSysP exEvsP).1 8 = 0 ∧
+    @probeCopiesId Int fixScalar exSysP exEvsP 7 = 0 ∧ @gatedRoutedId Int fixScalar exSysP exEvsP 7 = 0 :=
+  ⟨⟨by decide, by decide⟩, by decide +kernel, by decide, by decide +kernel, by decide +kernel, by decide +kernel,
+   by decide +kernel, by decide +kernel, by decide +kernel, by decide +kernel, by decide +kernel, by decide +kernel,
+   by decide +kernel, by decide +kernel⟩
+
+example (c : Nat) := @C01_probe_rate_by_id Int fixScalar exSysP ⟨by decide, by decide⟩ exEvsP (by decide +kernel) c
+
+end probeRateByIdExamples
 
 end Srtla.Props.C01
